@@ -325,6 +325,13 @@ def preflight():
     return [f"message class {m} is not in the harness DTD table" for m in sorted(missing)]
 
 
+def validate_stubs():
+    out = []
+    from props import c03
+    out += c03.validate_stubs()          # tree wire against ET.tostring / expat
+    return out
+
+
 def signature(cond_name, args, detail):
     tr = " ".join((detail or {}).get("trace", []))
     if "an unknown element was accepted" in tr:
